@@ -410,7 +410,7 @@ func c15Opt[T any](r *sim.Run, defined bool, v T) fp.Option[T] {
 
 func execC15(r *sim.Run) {
 	r.Case = "record"
-	kind := r.Choose(20, "type")
+	kind := r.Choose(20+c15FixN, "type")
 	def := r.Choose(4, "defined") != 0
 	preDef := r.Choose(2, "preDefined") == 1
 	i1, i2, i3 := r.Choose(2001, "i1")-1000, r.Choose(7, "i2"), r.Choose(1<<20, "i3")
@@ -506,6 +506,8 @@ func execC15(r *sim.Run) {
 		c15Run(c, fp.None[fp.Unit](), c15Opt(r, preDef, fp.Unit{}), fp.None[fp.Unit](), nil, false, true)
 	case 16, 17, 18, 19:
 		c15Generated(c, kind, s1, s2, i1, i3, preDef)
+	case 20, 21, 22, 23, 24, 25:
+		c15Fixture(c, kind-20, s1, s2, i1, i3, preDef)
 	default:
 		c.name = "*Option[int] inside struct pointer"
 		type holder struct {
